@@ -5,7 +5,7 @@ and the producers that promise canonical form (slicing, arithmetic, concatenatio
 RunLengthArray invariant (contracts.rla_canonical) is attached to *every* instance created
 while a C14-C17 workload runs."""
 import numpy as np
-from ..core import CTX, attempt, held, violated, undefined, same_array, short, scribble
+from ..core import CTX, attempt, held, violated, undefined, same_array, short, scribble, same_dtype
 from .. import gen, contracts, rl
 
 PROP = "C14"
@@ -42,9 +42,14 @@ def run(case):
     RLA = CTX.lib.RunLengthArray
     dt = np.dtype(case["dtype"])
     v = np.array(case["vals"]).astype(dt)
+    if case.get("swap") and dt.kind in "iu" and dt.itemsize > 1:
+        v = v.astype(dt.newbyteorder())          # the same values in non-native byte order (what reading a big-endian file gives)
+        tags_swap = ["byteswapped"]
+    else:
+        tags_swap = []
     L = len(v)
     kind = case["kind"]
-    tags = ["k:" + kind, "kind:" + dt.kind, "dt:" + dt.name, "style:" + case.get("style", "?"), "v:" + case.get("vclass", "small")]
+    tags = ["k:" + kind, "kind:" + dt.kind, "dt:" + dt.name, "style:" + case.get("style", "?"), "v:" + case.get("vclass", "small")] + tags_swap
     if dt.kind == "f" and L > 1:
         if np.any(np.isinf(v[1:]) & (v[1:] == v[:-1])):
             tags.append("adjacent-inf")
@@ -73,7 +78,7 @@ def run(case):
         o2 = attempt(r.to_array)
         if not o2.ok or not same_array(o2.value, v, dtype=True):
             return violated("%s: after the caller overwrote a decoded copy, to_array() gives %s" % (desc, repr(o2) if not o2.ok else short(o2.value, 160)), tags + ["decode-aliases-state"])
-    m = attempt(lambda: (int(len(r)), int(r.size), tuple(int(x) for x in r.shape), r.dtype == dt))
+    m = attempt(lambda: (int(len(r)), int(r.size), tuple(int(x) for x in r.shape), same_dtype(r.dtype, dt)))
     if not m.ok or m.value != (L, L, (L,), True):
         return violated("%s reports len/size/shape/dtype-equal = %s, expected %s" % (desc, repr(m) if not m.ok else m.value, (L, L, (L,), True)), tags)
     CTX.tick("c14:canonical")
@@ -166,6 +171,7 @@ def run(case):
 
 def gen_case(rng, tier, kind=None, dtype=None, vclass=None, style=None):
     dtype = dtype or rng.choice(rl.DT_RL)
+    swap = rng.random() < 0.12
     k = np.dtype(dtype).kind
     vclass = vclass or rng.choice(["small", "small", "extreme"] + (["nonfinite", "nonfinite", "close"] if k == "f" else []))
     if vclass == "nonfinite" and k != "f":
@@ -174,6 +180,8 @@ def gen_case(rng, tier, kind=None, dtype=None, vclass=None, style=None):
     v, style = rl.gen_runs(rng, dtype, vclass, maxlen, style)
     kind = kind or rng.choice(KINDS)
     c = mk_case(dtype, v.tolist(), kind, style=style, vclass=vclass)
+    if swap:
+        c["swap"] = True
     L = len(v)
     if kind == "slice":
         c["slice"] = gen.gen_slice(rng, L)
